@@ -147,6 +147,26 @@ pub fn run_c11(w: &mut W) {
             None
         };
         let mut wires: Vec<Vec<u8>> = pkts.iter().map(|p| p.wire()).collect();
+        // stray octets inside an IPFIX message: the announced message length covers 1-3 bytes behind
+        // the last set (too short for a set header; they may look like a version word). They belong
+        // to the message wherever it stands in a buffer.
+        if !minimal || rng.chance(1, 2) {
+            for x in wires.iter_mut() {
+                if x.len() >= 16 && x.len() < 65530 && x[0] == 0 && x[1] == 10 && rng.chance(1, 6) {
+                    let k = 1 + rng.usize(3);
+                    let mut stray = rng.bytes(k);
+                    if k >= 2 && rng.chance(2, 3) {
+                        stray[0] = 0;
+                        stray[1] = *rng.pick(&[5u8, 7, 9, 10]);
+                    }
+                    x.extend(stray);
+                    let l = (x.len() as u16).to_be_bytes();
+                    x[2] = l[0];
+                    x[3] = l[1];
+                    w.rep.count("ipfix_messages_with_stray_octets_behind_the_last_set", 1);
+                }
+            }
+        }
         // a packet that decodes to an error may only be last
         if rng.chance(1, 5) {
             let last = wires.last_mut().unwrap();
@@ -182,7 +202,15 @@ pub fn run_c11(w: &mut W) {
             }
             let mut keep = wires.len();
             for (i, x) in wires.iter().enumerate() {
-                if probe.parse_bytes(x).iter().any(|e| e.is_error()) {
+                let r = probe.parse_bytes(x);
+                if r.iter().any(|e| e.is_error()) {
+                    // ... unless the packet was decoded and the error is an *additional* element: every
+                    // buffer here is exactly one self-delimiting packet, so whatever the library makes
+                    // of it alone it has to make of it inside a chain; the partitions decide
+                    if r.len() >= 2 && !r[0].is_error() {
+                        w.rep.count("packets_returning_a_further_element_when_alone", 1);
+                        continue;
+                    }
                     keep = i + 1;
                     break;
                 }
@@ -337,6 +365,31 @@ pub fn run_c12(w: &mut W) {
         }
         w.rep.count(&format!("allowed_subset.{:04b}", subset), 1);
         let verdict: Result<(), Div> = (|| {
+            // what the leading version word alone decides, stated without reference to any other
+            // parser: not in S -> nothing at all; in S but not a version the library decodes -> exactly
+            // one unknown-version error carrying the bytes after the word (and the whole buffer as
+            // `remaining`)
+            if buf.len() >= 2 {
+                let v = u16::from_be_bytes([buf[0], buf[1]]);
+                for (who, set_has, r) in [("S", s.contains(&v), &ra), ("all versions", true, &rb)] {
+                    if !set_has {
+                        w.rep.count("leading_word.filtered", 1);
+                        if !r.is_empty() {
+                            return Err(div("filter/leading-word", "not-filtered", format!("allowed {:?}: the buffer opens with version {} and yet {} element(s) were returned", s, v, r.len())));
+                        }
+                    } else if ![5u16, 7, 9, 10].contains(&v) {
+                        w.rep.count("leading_word.unknown_version", 1);
+                        let ok = r.len() == 1
+                            && match &r[0] {
+                                NetflowPacket::Error(e) => e.remaining[..] == buf[..] && matches!(&e.error, netflow_parser::NetflowParseError::UnknownVersion(b) if b[..] == buf[2..]),
+                                _ => false,
+                            };
+                        if !ok {
+                            return Err(div("filter/leading-word", "unknown-version", format!("allowed set ({}) contains {}, the buffer opens with it: expected one UnknownVersion error with the {} bytes after the word, got {:?}", who, v, buf.len() - 2, r.iter().map(kind).collect::<Vec<_>>())));
+                        }
+                    }
+                }
+            }
             let all: std::collections::HashSet<u16> = super::common::all_versions();
             let acct = match account(&buf, &rb, &all) {
                 Ok(a) => a,
@@ -734,10 +787,55 @@ pub fn run_c14(w: &mut W) {
             Pkt::V9(v) => v9_boundaries(v),
             _ => vec![],
         };
+        // One case in six: the application has merged a kept copy of the cache maps back in after an
+        // id changed kind, so that one id sits in the template map *and* the options-template map
+        // of a protocol - a state traffic alone never produces, and one more state a truncated
+        // packet has to leave as it found it.
+        let both: Option<(Vec<u8>, Vec<u8>)> = if !big && rng.chance(1, 6) {
+            Some(if rng.chance(1, 2) {
+                let o = ex.ipfix_new_opt_template(&mut rng, &cfg, &w.pools);
+                let m1 = ex.ipfix_wrap(&mut rng, vec![IpfixSet::OptionsTemplate { records: vec![o.clone()], padding: vec![] }]).wire();
+                let mut t = ex.ipfix_new_template(&mut rng, &cfg, &w.pools);
+                ex.ix_t.remove(&t.id);
+                t.id = o.id;
+                ex.ix_o.remove(&o.id);
+                ex.ix_t.insert(t.id, t.clone());
+                let m2 = ex.ipfix_wrap(&mut rng, vec![IpfixSet::Template { records: vec![t], padding: vec![] }]).wire();
+                (m1, m2)
+            } else {
+                let o = ex.v9_new_opt_template(&mut rng, &cfg, &w.pools);
+                let pad = vec![0u8; (4 - o.wire().len() % 4) % 4];
+                let m1 = ex.v9_wrap(&mut rng, &cfg, vec![V9FlowSet::OptionsTemplate { templates: vec![o.clone()], padding: pad }]).wire();
+                let mut t = ex.v9_new_template(&mut rng, &cfg, &w.pools);
+                ex.v9_t.remove(&t.id);
+                t.id = o.id;
+                ex.v9_o.remove(&o.id);
+                ex.v9_t.insert(t.id, t.clone());
+                let m2 = ex.v9_wrap(&mut rng, &cfg, vec![V9FlowSet::Template { templates: vec![t], padding: vec![] }]).wire();
+                (m1, m2)
+            })
+        } else {
+            None
+        };
+        let prepare = |s: &mut Sut| {
+            for x in &warm {
+                s.parse(0, x);
+            }
+            if let Some((m1, m2)) = &both {
+                s.parse(0, m1);
+                s.snapshot(0);
+                s.parse(0, m2);
+                s.restore(0);
+            }
+        };
         // state before the truncated buffer
         let mut base = Sut::new(1);
-        for x in &warm {
-            base.parse(0, x);
+        prepare(&mut base);
+        if both.is_some() {
+            let s0 = snap(&base.parsers[0]);
+            if s0.v9_t.keys().any(|k| s0.v9_o.contains_key(k)) || s0.ix_t.keys().any(|k| s0.ix_o.contains_key(k)) {
+                w.rep.count("parsers_holding_an_id_in_both_maps_of_a_protocol", 1);
+            }
         }
         // reference: the complete preceding packets
         let mut refp = clone_parser(&base.parsers[0]);
@@ -782,9 +880,7 @@ pub fn run_c14(w: &mut W) {
             })();
             if let Err(d) = verdict {
                 let mut s = Sut::new(1);
-                for x in &warm {
-                    s.parse(0, x);
-                }
+                prepare(&mut s);
                 s.parse(0, &buf);
                 w.rep.violation(sig("C14", &d), &d, s.replay_json());
                 ok = false;
